@@ -76,7 +76,7 @@ impl CsvFile {
             if a.is_empty() {
                 continue;
             }
-            row[C_AFF] = match (fnv64(self.name.as_bytes()).wrapping_add(i as u64 * 7)) % 5 {
+            row[C_AFF] = match (fnv64(self.name.as_bytes()).wrapping_add(i as u64 * 7 + (i as u64 / 50) * 3)) % 5 {
                 0 => a,
                 1 => a.to_lowercase(),
                 2 => a.to_uppercase(),
